@@ -49,6 +49,7 @@ AGG1 = 'aaaaaaaa-aaaa-aaaa-aaaa-aaaaaaaaaaa1'
 AGG2 = 'aaaaaaaa-aaaa-aaaa-aaaa-aaaaaaaaaaa2'
 C1 = 'cccccccc-cccc-cccc-cccc-ccccccccccc1'   # has an allocation
 C2 = 'cccccccc-cccc-cccc-cccc-ccccccccccc2'   # new consumer
+C3 = 'cccccccc-cccc-cccc-cccc-ccccccccccc3'   # written at 1.37: no consumer type stored (reads as "unknown" from 1.38)
 P1, USR1 = 'project-1', 'user-1'
 
 # --------------------------------------------------------------------------------------------------
@@ -182,6 +183,8 @@ def build_state(app):
     ok(c('PUT', '/resource_providers/%s/aggregates' % U1, {'resource_provider_generation': 2, 'aggregates': [AGG1]}), 200)
     ok(c('PUT', '/allocations/%s' % C1, {'allocations': {U1: {'resources': {'VCPU': 1}}}, 'project_id': P1,
                                          'user_id': USR1, 'consumer_generation': None, 'consumer_type': 'INSTANCE'}), 204)
+    ok(c('PUT', '/allocations/%s' % C3, {'allocations': {U2: {'resources': {'SRIOV_NET_VF': 1}}}, 'project_id': 'project-legacy',
+                                         'user_id': 'user-legacy', 'consumer_generation': None}, version='1.37'), 204)
     gens = {}
     for u in (U1, U2, U3):
         gens[u] = ok(c('GET', '/resource_providers/%s' % u), 200).json['generation']
@@ -796,6 +799,8 @@ def feature_probes():
         body=lambda v, g: reshaper_body(v, g, consumer_type=False), route=rs)
     add('consumer_type', 'GET consumer allocations', 'GET', '/allocations/%s' % C1,
         lambda r, a: walk(r, ['consumer_type']) == 'INSTANCE', lacks([], 'consumer_type'))
+    add('consumer_type', 'GET allocations of a consumer written below 1.38', 'GET', '/allocations/%s' % C3,
+        lambda r, a: walk(r, ['consumer_type']) == 'unknown', lacks([], 'consumer_type'))
     us = T('/usages', 'GET')
     add('consumer_type', 'usages consumer_type filter', 'GET', '/usages?project_id=%s&consumer_type=INSTANCE' % P1,
         st(200), st(400), route=us)
